@@ -346,6 +346,7 @@ func (inv *Invoice) Normalize(normalizers tax.Normalizers) {
 		// normalized, so that the result does not change on a second pass
 		applyCustomerRates(inv)
 	}
+	dropOwnCountryFromTaxes(inv)
 	tax.Normalize(normalizers, inv.Preceding)
 	tax.Normalize(normalizers, inv.Lines)
 	tax.Normalize(normalizers, inv.Discounts)
